@@ -37,7 +37,7 @@ def required(tier):
     # first never raises on disorder and still satisfies the property)
     return ["hint<governing", "hint==governing", "hint==governing+1", "hint==len-1>governing", "hint>=len",
             "directed:swap_inside_one_segment", "directed:later_segment_then_segment0", "contract_evaluated",
-            "map_with_>=1000_tempo_events", "map_built_through_public_constructors", "whole_generated_chart"] + \
+            "map_with_>=1000_tempo_events", "map_built_through_public_constructors", "whole_generated_chart", "map_with_half_microsecond_ties"] + \
            [f"disordered:{k}" for k in KINDS]
 
 
@@ -148,14 +148,31 @@ def scope(rec, n, rng):
     rec.sample({"tempo_ticks": ticks, "queries": qs[:8], "hints": list(range(0, n + 2))})
 
 
+TIE_TEMPI = {192: [200000, 40000, 1000000], 480: [80000, 160000, 16000, 400000], 96: [400000, 80000], 960: [40000, 200000, 8000]}
+
+
 def random_maps(rec, rng, count):
-    for _ in range(count):
+    from vmon.props import c01
+
+    for it in range(count):
         res = gen.gen_resolution(rng, "hostile")
         tempos = gen.gen_tempos(rng, "hostile", res, rng.choice([2, 5, 20, 80, 300]), 3600 * 10**6)
+        tie_ticks = []
+        if it % 3 == 2:
+            # maps on which exact times fall on x.5 us ("ties": 200 BPM at resolution 192 puts every odd tick there): whichever
+            # arithmetic a shortcut for well-hinted queries uses, it must round like the un-hinted path
+            res = rng.choice(sorted(TIE_TEMPI))
+            tempos = [[t, gen.usable_n(rng.choice(TIE_TEMPI[res]))] for t, _ in gen.gen_tempos(rng, "realistic", res, rng.choice([2, 3, 6]), 1200 * 10**6)]
+            rec.cls("map_with_half_microsecond_ties")
         ticks = [t for t, _ in tempos]
         be = bpm_events_for(tempos, res)
         tm = model.TempoMap(res, tempos)
-        for tick in gen.interesting_ticks(rng, tm, tm.horizon(3600 * 10**6), 25):
+        if it % 3 == 2:
+            for g in range(len(ticks)):
+                hi = ticks[g + 1] if g + 1 < len(ticks) else ticks[g] + 40
+                tie_ticks += [t for t in range(ticks[g], min(hi, ticks[g] + 12))]
+            tie_ticks += c01.solve_ticks(tm, tm.horizon(1200 * 10**6), rng)
+        for tick in gen.interesting_ticks(rng, tm, tm.horizon(3600 * 10**6), 25) + tie_ticks:
             g = tm.gov(tick)
             for h in {0, g, g + 1, max(0, g - 1), rng.randint(0, len(ticks) + 1), len(ticks) - 1, len(ticks)}:
                 judge_query(rec, be, ticks, tick, h, lambda: {"kind": "query", "tempos": tempos, "resolution": res, "tick": tick, "hint": h})
